@@ -13,6 +13,20 @@ Definition obs_outcome {A} (f : A -> obs) (o : outcome A) : obs :=
   match o with Ok a => f a | Panic => opanic | OutOfFuel => OT "OutOfFuel" [] end.
 
 Definition nth_N {A} (l : list A) (i : N) : option A := nth_error l (N.to_nat i).
+
+(* s, s+1, ..., s+k-1 (map N.of_nat (seq ..)) costs a quadratic number of steps) *)
+Fixpoint N_range (s : N) (k : nat) : list N :=
+  match k with O => [] | S k' => s :: N_range (N.succ s) k' end.
+
+(* big contents of case files, written as a formula (a literal list of 70 000 numbers takes the elaborator minutes):
+   n bytes; byte i is CR if i is in crs, LF if i-1 is in crs, else LF if i = lf0 + k*lfstep, else the pattern repeated.
+   harness/term.go (Term.List) and lib/core.py (big_bytes) compute the same list. *)
+Definition big_bytes (n : N) (pat : list N) (lf0 lfstep : N) (crs : list N) : list N :=
+  map (fun i => if existsb (N.eqb i) crs then 13
+                else if existsb (fun j => i =? j + 1) crs then 10
+                else if (lf0 <=? i) && ((i - lf0) mod lfstep =? 0) then 10
+                else nth (N.to_nat (i mod N.of_nat (length pat))) pat 0)
+      (N_range 0 (N.to_nat n)).
 Definition len_N {A} (l : list A) : N := N.of_nat (length l).
 
 (* decimal rendering of a number, as bytes *)
